@@ -99,7 +99,7 @@ func fieldInvoke(ins ssa.Instruction, named *types.Named, field, name string) *s
 
 func runC10(c *core.Ctx) {
 	runFixtures(c, "drop", "read")
-	c.Explain("Structural clauses of C10 decided from source (thin: byte/metadata equality with the source is behaviour): (R10.1) in the cache FS's Open the source is opened for content only under the ErrNotExist edge of the cache look-up of the same name, every other look-up error returns; (R10.2) on every path after a successful fill the returned handle was rewound with a successful SeekFile(f, 0, SeekStart) or is re-opened from the cache; (R10.3) the memoised FileInfo stored in the info table is the result of Stat() on a handle obtained from the source, stored only on its nil-error edge, under the name it was asked for; (R10.4) the cache's directory handle lists through the source file system and stats through the same memoised Stat. (R10.5) the fill removes the cache file on every failing exit after creating it and reads the Close error of the file it wrote (a store that commits on Close can fail there) — otherwise a later Open is served a truncated copy that differs from the source. (R10.7) the table in which the fill marks a partial file it could not remove is consulted in Open before the cache look-up, and an entry leaves it only on paths on which Remove of the cache file answered nil or ErrNotExist; (R10.6) every direct Read call in package cache is a delegation or a loop left only on an error / a full buffer whose successful returns looked at the latest count (a source may legally return short counts; a hand-written copy that stops at the first short block caches a prefix). NOT claimed: that returned names, kinds, sizes, modes and bytes equal the source's; 'without reading the source again' beyond the ordering; the RetainData policy.")
+	c.Explain("Structural clauses of C10 decided from source (thin: byte/metadata equality with the source is behaviour): (R10.1) in the cache FS's Open the source is opened for content only under the ErrNotExist edge of the cache look-up of the same name, every other look-up error returns; (R10.2) on every path after a successful fill the returned handle was rewound with a successful SeekFile(f, 0, SeekStart) or is re-opened from the cache; (R10.3) the memoised FileInfo stored in the info table is the result of Stat() on a handle obtained from the source, stored only on its nil-error edge, under the name it was asked for; (R10.4) the cache's directory handle lists through the source file system and stats through the same memoised Stat. (R10.5) the fill removes the cache file on every failing exit after creating it and reads the Close error of the file it wrote (a store that commits on Close can fail there) — otherwise a later Open is served a truncated copy that differs from the source. (R10.7) the table in which the fill marks a partial file it could not remove is consulted in Open before the cache look-up, and an entry leaves it only on paths on which Remove of the cache file answered nil or ErrNotExist; (R10.6) every direct Read call in package cache is a delegation or a loop left only on an error / a full buffer whose successful returns looked at the latest count (a source may legally return short counts; a hand-written copy that stops at the first short block caches a prefix). (R10.8) its Seek computes the cursor from the caller's offset; (R10.9) the fill runs once per freshly opened handle; (R10.10/R10.11) the cache copy is created with and chmod-ed to the source's mode. NOT claimed: that returned names, kinds, sizes, modes and bytes equal the source's; 'without reading the source again' beyond the ordering; the RetainData policy.")
 	c.Assume("A1: FS contract of source and cache file systems")
 	c.RuleDoc("R10.1", "cache look-up before source; only ErrNotExist falls through")
 	c.RuleDoc("R10.2", "handle returned after a fill starts at offset 0")
@@ -326,7 +326,7 @@ func r10Dir(c *core.Ctx, p *load.Program, sh *cacheShape) {
 
 func runC11(c *core.Ctx) {
 	runFixtures(c, "drop", "locks")
-	c.Explain("Structural clauses of C11 decided from source: (R11.1) in the cache FS's Open, the cache look-up, the source open and the fill run after Lock(name) on the per-path lock and before its release, Lock and Unlock use the same key, the Unlock is deferred (or on every exit), the fill function has no caller outside that region, and the per-path lock obtains the mutex of a key with one atomic LoadOrStore; (R11.2) on every path on which the cache file was created and the fill then fails, the partial file is invalidated (removed from the cache FS) before the error is returned; (R11.3) the Close error of the cache file opened for writing takes part in the fill's result. (R11.4) the fill (and Open around it) reads no slice-typed field of the file system value: the lock held is per path, so a scratch buffer shared by all fills would be written by two fills at once. (R11.5) the dropped-error analysis over the fill function: the error of every step (creating directories, opening the cache file, the copy) reaches the fill's result on every path where it is non-nil; (R11.6 = R10.2) the handle returned after a fill was rewound successfully or re-opened from the cache. (R11.7 = R10.7) the never-serve mark of a partial file that could not be removed is consulted before the cache look-up and dropped only after Remove answered nil or ErrNotExist; (R11.8) on every path through Open the fill is called at most once per freshly opened (or rewound) source handle. NOT claimed: interleavings of concurrent opens (only the lock discipline), a fault at every read/write index, cache stores that cannot remove files.")
+	c.Explain("Structural clauses of C11 decided from source: (R11.1) in the cache FS's Open, the cache look-up, the source open and the fill run after Lock(name) on the per-path lock and before its release, Lock and Unlock use the same key, the Unlock is deferred (or on every exit), the fill function has no caller outside that region, and the per-path lock obtains the mutex of a key with one atomic LoadOrStore; (R11.2) on every path on which the cache file was created and the fill then fails, the partial file is invalidated (removed from the cache FS) before the error is returned; (R11.3) the Close error of the cache file opened for writing takes part in the fill's result. (R11.4) the fill (and Open around it) reads no slice-typed field of the file system value: the lock held is per path, so a scratch buffer shared by all fills would be written by two fills at once. (R11.5) the dropped-error analysis over the fill function: the error of every step (creating directories, opening the cache file, the copy) reaches the fill's result on every path where it is non-nil; (R11.6 = R10.2) the handle returned after a fill was rewound successfully or re-opened from the cache. (R11.7 = R10.7) the never-serve mark of a partial file that could not be removed is consulted before the cache look-up and dropped only after Remove answered nil or ErrNotExist; (R11.8) on every path through Open the fill is called at most once per freshly opened (or rewound) source handle. (R11.9 = R10.1) only ErrNotExist of the cache look-up leads to a fill. NOT claimed: interleavings of concurrent opens (only the lock discipline), a fault at every read/write index, cache stores that cannot remove files.")
 	c.Assume("A2: sync.Map.LoadOrStore is atomic; sync.Mutex semantics", "a cache store without RemoveFS cannot invalidate a partial file (stated limitation)")
 	c.RuleDoc("R11.1", "look-up + fill under the per-path lock")
 	c.RuleDoc("R11.2", "failed fill invalidates the partial cache file")
